@@ -10,6 +10,12 @@ import TetlProofs.C19.Lemmas
 import TetlProofs.C19.Mapping
 import TetlProofs.C19.Extents
 import TetlProofs.C19.Stride
+import TetlProofs.C19.StrideModel
+import TetlProofs.C19.Members
+import TetlProofs.C19.Transpose
+import TetlProofs.C19.StrideEq
+import TetlProofs.C19.Exhaustive
+import TetlProofs.C19.SubExtents
 namespace Tetl.C19.Props
 open Tetl Tetl.C19 Tetl.C19.Spec Tetl.C19.Lemmas
 
@@ -118,6 +124,200 @@ example : ∃ e, Ext.ofVals ⟨32, true⟩ [some 2, none] [2, 3] = .ok e ∧ e.e
     ∧ e.extent ⟨32, true⟩ 1 = .ok 3 ∧ Fits ⟨32, true⟩ [2, 3] ∧ IdxT.Valid ⟨32, true⟩ :=
   ⟨_, rfl, rfl, rfl, by decide, ⟨by decide, by decide⟩⟩
 
+/-! ## layout_stride::mapping: the model with the index_type casts
+
+`FitsStride t vals s`: every extent, every stride and `required_span_size` = `reqSpanStride vals s` are representable in
+`index_type` ([mdspan.layout.stride.cons] preconditions).  Signed overflow inside `operator()` beyond that precondition is
+undefined behaviour of the source and outside the model. -/
+
+/-- `layout_stride::mapping(extents, strides)` never fails, `strides()` is the given array and `stride(k)` its `k`-th
+    element -/
+theorem stride_ctor_strides_eq (t : IdxT) (hv : IdxT.Valid t) (e : Ext) (vals s : List Nat) (he : ExtIs t e vals)
+    (hs : s.length = vals.length) (hf : FitsStride t vals s) :
+    ∃ m, StrideMap.mk' t e (s.map Int.ofNat) = .ok m ∧ m.ext = e ∧ m.strides = s.map Int.ofNat
+      ∧ ∀ k (hk : k < s.length), m.stride k = .ok ((s[k] : Nat) : Int) :=
+  ⟨smap e s, strideMk_eq t hv e vals s he hs hf.2.1, rfl, rfl, fun k hk => smap_stride_eq e vals s he.1 hs k hk⟩
+example : FitsStride ⟨8, true⟩ [2, 3, 4] [5, 1, 12] ∧ reqSpanStride [2, 3, 4] [5, 1, 12] = 44 := by decide
+
+/-- `layout_stride::mapping::operator()` (Σ index·stride with the casts of the source) never fails and equals the closed
+    form Σ i_k·s_k -/
+theorem stride_mapIdx_closed_form (t : IdxT) (hv : IdxT.Valid t) (e : Ext) (vals s : List Nat) (he : ExtIs t e vals)
+    (hs : s.length = vals.length) (hf : FitsStride t vals s) (idx : List Nat) (hr : InRange vals idx) :
+    ∃ m, StrideMap.mk' t e (s.map Int.ofNat) = .ok m
+      ∧ m.mapIdx t (idx.map Int.ofNat) = .ok ((offStride s idx : Nat) : Int) :=
+  ⟨smap e s, strideMk_eq t hv e vals s he hs hf.2.1, smap_mapIdx_eq t hv e vals s he hs hf idx hr⟩
+example : FitsStride ⟨8, false⟩ [2, 3] [1, 3] ∧ InRange [2, 3] [1, 2] ∧ offStride [1, 3] [1, 2] = 7 := by decide
+
+/-- `layout_stride::mapping::required_span_size()` (defined by the fix) never fails and is
+    1 + Σ (e_k − 1)·s_k, and 0 when an extent is 0 -/
+theorem stride_required_span_size_eq (t : IdxT) (hv : IdxT.Valid t) (e : Ext) (vals s : List Nat) (he : ExtIs t e vals)
+    (hs : s.length = vals.length) (hf : FitsStride t vals s) :
+    ∃ m, StrideMap.mk' t e (s.map Int.ofNat) = .ok m
+      ∧ m.reqSpan t = .ok ((reqSpanStride vals s : Nat) : Int)
+      ∧ reqSpanStride vals s = if 0 ∈ vals then 0 else 1 + maxOffStride vals s := by
+  refine ⟨smap e s, strideMk_eq t hv e vals s he hs hf.2.1, smap_reqSpan_eq t hv e vals s he hs hf, ?_⟩
+  unfold reqSpanStride
+  by_cases h : 0 ∈ vals
+  · rw [if_pos h, if_pos ((prod_eq_zero_iff vals).mpr h)]
+  · rw [if_neg h, if_neg (fun hp => h ((prod_eq_zero_iff vals).mp hp))]
+example : FitsStride ⟨8, true⟩ [2, 0, 4] [5, 1, 12] ∧ reqSpanStride [2, 0, 4] [5, 1, 12] = 0
+    ∧ reqSpanStride [2, 3] [4, 1] = 7 := by decide
+
+/-- the offset computed by the strided model lies inside `[0, required_span_size())` of the model -/
+theorem stride_mapIdx_in_span (t : IdxT) (hv : IdxT.Valid t) (e : Ext) (vals s : List Nat) (he : ExtIs t e vals)
+    (hs : s.length = vals.length) (hf : FitsStride t vals s) (idx : List Nat) (hr : InRange vals idx) :
+    ∃ m, StrideMap.mk' t e (s.map Int.ofNat) = .ok m ∧
+      ∃ o n : Nat, m.mapIdx t (idx.map Int.ofNat) = .ok (o : Int) ∧ m.reqSpan t = .ok (n : Int) ∧ o < n :=
+  ⟨smap e s, strideMk_eq t hv e vals s he hs hf.2.1, _, _, smap_mapIdx_eq t hv e vals s he hs hf idx hr,
+    smap_reqSpan_eq t hv e vals s he hs hf, offStride_lt_req vals s idx hr⟩
+
+/-- under the standard's uniqueness precondition distinct in-range multi-indices get distinct offsets from the strided
+    model -/
+theorem stride_mapIdx_injective (t : IdxT) (hv : IdxT.Valid t) (e : Ext) (vals s perm : List Nat) (he : ExtIs t e vals)
+    (hs : s.length = vals.length) (hf : FitsStride t vals s) (hok : StrideOK vals s perm = true) (i j : List Nat)
+    (hi : InRange vals i) (hj : InRange vals j) (m : StrideMap) (hm : StrideMap.mk' t e (s.map Int.ofNat) = .ok m)
+    (h : m.mapIdx t (i.map Int.ofNat) = m.mapIdx t (j.map Int.ofNat)) : i = j := by
+  rw [strideMk_eq t hv e vals s he hs hf.2.1] at hm
+  have hm' : smap e s = m := Except.ok.inj hm
+  subst hm'
+  rw [smap_mapIdx_eq t hv e vals s he hs hf i hi, smap_mapIdx_eq t hv e vals s he hs hf j hj] at h
+  have : offStride s i = offStride s j := by
+    have := Except.ok.inj h
+    exact_mod_cast this
+  exact offStride_inj vals s perm i j hok hi hj this
+example : StrideOK [2, 3, 4] [5, 1, 12] [2, 0, 1] = true ∧ FitsStride ⟨8, true⟩ [2, 3, 4] [5, 1, 12] := by decide
+
+/-- `layout_stride::mapping::is_exhaustive()` (defined by the fix) never fails and says whether
+    `required_span_size()` equals the size of the index space -/
+theorem stride_is_exhaustive_eq (t : IdxT) (hv : IdxT.Valid t) (e : Ext) (vals s : List Nat) (he : ExtIs t e vals)
+    (hs : s.length = vals.length) (hf : FitsStride t vals s) (hfe : Fits t vals) :
+    ∃ m, StrideMap.mk' t e (s.map Int.ofNat) = .ok m ∧ m.isExhaustive t = .ok (isExhaustiveStride vals s) :=
+  ⟨smap e s, strideMk_eq t hv e vals s he hs hf.2.1, smap_isExhaustive_eq t hv e vals s he hs hf hfe⟩
+example : FitsStride ⟨8, true⟩ [2, 3] [3, 1] ∧ Fits ⟨8, true⟩ [2, 3] ∧ isExhaustiveStride [2, 3] [3, 1] = true
+    ∧ isExhaustiveStride [2, 3] [4, 1] = false := by decide
+
+/-- for a non-empty index space and strides satisfying the uniqueness precondition (`perm` lists the dimensions by
+    decreasing stride), `is_exhaustive` is true exactly when the strides are a permutation of a contiguous layout: every
+    dimension with more than one index has as stride the product of the extents of the faster dimensions (`Contig`; the
+    stride of a dimension of extent 1 multiplies the index 0 only) -/
+theorem stride_exhaustive_iff_contiguous (vals s perm : List Nat) (l : List (Nat × Nat))
+    (hok : StrideOK vals s perm = true) (hl : permPairs vals s perm = some l) (hne : prod vals ≠ 0) :
+    isExhaustiveStride vals s = true ↔ Contig l := exhaustive_iff_contig vals s perm l hok hl hne
+example : StrideOK [2, 3, 4] [12, 1, 3] [0, 2, 1] = true ∧ permPairs [2, 3, 4] [12, 1, 3] [0, 2, 1] = some [(2, 12), (4, 3), (3, 1)]
+    ∧ isExhaustiveStride [2, 3, 4] [12, 1, 3] = true := by decide
+
+/-- the meaning of "exhaustive" in the layout mapping requirements ([mdspan.layout.reqmts]): under the uniqueness
+    precondition `is_exhaustive` is true exactly when every offset below `required_span_size` is the image of an in-range
+    multi-index -/
+theorem stride_exhaustive_iff_surjective (vals s perm : List Nat) (hok : StrideOK vals s perm = true) :
+    isExhaustiveStride vals s = true ↔ ∀ k, k < reqSpanStride vals s → ∃ i, InRange vals i ∧ offStride s i = k :=
+  exhaustive_iff_surjective vals s perm hok
+example : StrideOK [2, 3] [1, 2] [1, 0] = true ∧ isExhaustiveStride [2, 3] [1, 2] = true
+    ∧ StrideOK [2, 3] [4, 1] [0, 1] = true ∧ isExhaustiveStride [2, 3] [4, 1] = false := by decide
+
+/-- the literal wording of [mdspan.layout.stride.obs] (fastest stride 1, every other stride = next faster stride times
+    its extent, `StdContig`) implies `Contig`, and is equivalent to it when no extent is 1; an empty index space is
+    exhaustive (required_span_size = 0 = size) -/
+theorem stride_exhaustive_std (vals s perm : List Nat) (l : List (Nat × Nat)) (hok : StrideOK vals s perm = true)
+    (hl : permPairs vals s perm = some l) :
+    (prod vals = 0 → isExhaustiveStride vals s = true)
+    ∧ (prod vals ≠ 0 → StdContig l → isExhaustiveStride vals s = true)
+    ∧ (prod vals ≠ 0 → (∀ p ∈ l, 2 ≤ p.1) → isExhaustiveStride vals s = true → StdContig l) := by
+  have hd : Desc l := by
+    unfold StrideOK at hok
+    simp only [Bool.and_eq_true, hl, decide_eq_true_eq] at hok
+    exact hok.2
+  refine ⟨exhaustive_of_empty vals s, fun hne h => ?_, fun hne h2 h => ?_⟩
+  · exact (exhaustive_iff_contig vals s perm l hok hl hne).mpr (contig_of_std l h)
+  · exact std_of_contig l hd ((exhaustive_iff_contig vals s perm l hok hl hne).mp h) h2
+example : StdContig [(2, 12), (4, 3), (3, 1)] ∧ ¬ StdContig [(1, 5), (2, 1)] ∧ Contig [(1, 5), (2, 1)] :=
+  ⟨⟨rfl, rfl, rfl, trivial⟩, fun h => absurd h.1 (by decide), ⟨Or.inl rfl, Or.inr rfl, trivial⟩⟩
+
+/-- `mdspan::operator()` over a `layout_stride` mapping reads exactly `buffer[Σ i_k·s_k]`, inside any buffer of at least
+    `required_span_size` elements (never `.error .oob`) -/
+theorem mdspan_access_stride_eq {α : Type} (t : IdxT) (hv : IdxT.Valid t) (e : Ext) (vals s : List Nat)
+    (he : ExtIs t e vals) (hs : s.length = vals.length) (hf : FitsStride t vals s) (buf : List α)
+    (hb : reqSpanStride vals s ≤ buf.length) (idx : List Nat) (hr : InRange vals idx) :
+    ∃ m, StrideMap.mk' t e (s.map Int.ofNat) = .ok m ∧
+      ∃ h : offStride s idx < buf.length, mdspanAtStride t m buf (idx.map Int.ofNat) = .ok buf[offStride s idx] :=
+  ⟨smap e s, strideMk_eq t hv e vals s he hs hf.2.1, mdspanAtStride_eq t hv e vals s he hs hf buf hb idx hr⟩
+
+/-- `mdarray` over a `layout_stride` mapping (usable since `required_span_size` is defined) allocates exactly
+    `required_span_size` elements and addresses the element at Σ i_k·s_k -/
+theorem mdarray_access_stride_eq (t : IdxT) (hv : IdxT.Valid t) (e : Ext) (vals s : List Nat) (he : ExtIs t e vals)
+    (hs : s.length = vals.length) (hf : FitsStride t vals s) (idx : List Nat) (hr : InRange vals idx) :
+    ∃ m, StrideMap.mk' t e (s.map Int.ofNat) = .ok m ∧
+      mdarrayAtStride t m (idx.map Int.ofNat) = .ok (((reqSpanStride vals s : Nat) : Int), offStride s idx) :=
+  ⟨smap e s, strideMk_eq t hv e vals s he hs hf.2.1, mdarrayAtStride_eq t hv e vals s he hs hf idx hr⟩
+
+/-- `operator==` of a strided mapping against another strided mapping (any two index types and extents types of equal
+    rank) is true exactly when extents and strides agree -/
+theorem stride_eq_stride (t ts : IdxT) (hv : IdxT.Valid t) (hvs : IdxT.Valid ts) (e oe : Ext) (vals ovals s os : List Nat)
+    (he : ExtIs t e vals) (hoe : ExtIs ts oe ovals) (hrank : ovals.length = vals.length)
+    (hs : s.length = vals.length) (hos : os.length = ovals.length) (hfo : FitsStride ts ovals os) (hfe : Fits ts ovals) :
+    (smap e s).eqMapping t ts oe (smap oe os).stride ((smap oe os).mapIdx ts) = .ok (decide (vals = ovals ∧ s = os)) :=
+  smap_eq_smap t ts hv hvs e oe vals ovals s os he hoe hrank hs hos hfo hfe
+
+/-- `operator==` of a strided mapping against a layout_left / layout_right mapping: equal extents and the strides of
+    that contiguous layout -/
+theorem stride_eq_contiguous (t ts : IdxT) (hv : IdxT.Valid t) (hvs : IdxT.Valid ts) (l : Lay) (e oe : Ext)
+    (vals ovals s : List Nat) (he : ExtIs t e vals) (hoe : ExtIs ts oe ovals) (hrank : ovals.length = vals.length)
+    (hs : s.length = vals.length) (hfe : Fits ts ovals) :
+    (smap e s).eqMapping t ts oe (stride l ts oe) (mapIdx l ts oe)
+      = .ok (decide (vals = ovals ∧ s = stridesSpec l ovals)) :=
+  smap_eq_contig t ts hv hvs l e oe vals ovals s he hoe hrank hs hfe
+example : stridesSpec .left [2, 3, 4] = [1, 2, 6] ∧ stridesSpec .right [2, 3, 4] = [12, 4, 1] := by decide
+
+/-- the converting constructors: `layout_stride::mapping` from a layout_left / layout_right mapping has the same extents
+    and the strides of that layout; from another strided mapping the same extents and strides; layout_left / layout_right
+    from a strided mapping keep the extents.  No array is left. -/
+theorem stride_converting_ctors (t ts : IdxT) (hv : IdxT.Valid t) (hvs : IdxT.Valid ts) (p : Pat) (src : Ext)
+    (vals : List Nat) (hsrc : ExtIs ts src vals) (hc : Consistent p vals) (hft : Fits t vals) (hfs : Fits ts vals) :
+    (∀ l, ∃ m, StrideMap.ofMapping t ts p src (stride l ts src) = .ok m ∧ ExtIs t m.ext vals
+        ∧ m.strides = (stridesSpec l vals).map Int.ofNat)
+    ∧ (∀ ss : List Nat, ss.length = vals.length → (∀ x ∈ ss, x ≤ t.maxV) →
+        (∃ m, StrideMap.ofMapping t ts p src (smap src ss).stride = .ok m ∧ ExtIs t m.ext vals
+          ∧ m.strides = ss.map Int.ofNat)
+        ∧ ∃ r, contigOfStride t ts p (smap src ss) = .ok r ∧ ExtIs t r vals) := by
+  have hm : ∀ x ∈ vals, x ≤ t.maxV := by
+    intro x hx
+    obtain ⟨k, hk, rfl⟩ := List.getElem_of_mem hx
+    exact fits_elem t vals hft k hk
+  exact ⟨fun l => ofMapping_contig t ts hv hvs l p src vals hsrc hc hft hfs,
+    fun ss hss hms => ⟨ofMapping_stride t ts hv p src vals ss hsrc hc hm hss hms,
+      contigOfStride_eq t ts hv p src vals ss hsrc hc hm⟩⟩
+example : Consistent [none, some 3] [2, 3] ∧ Fits ⟨8, true⟩ [2, 3] ∧ Fits ⟨16, false⟩ [2, 3] := by decide
+
+/-! ## extents::operator==, mdspan::size / empty / operator[], mdarray::to_mdspan / container_size -/
+
+/-- `operator==` of two extents objects (any index types, any static/dynamic patterns, any ranks) never fails and is
+    true exactly when they report the same extents -/
+theorem extents_eq_iff (t1 t2 : IdxT) (a b : Ext) (va vb : List Nat) (ha : ExtIs t1 a va) (hb : ExtIs t2 b vb) :
+    Ext.eq t1 t2 a b = .ok (decide (va = vb)) := extEq_eq t1 t2 a b va vb ha hb
+
+/-- `mdspan::size()` is the size of the index space and `mdspan::empty()` says whether an extent is 0 -/
+theorem mdspan_size_empty_eq (t : IdxT) (hv : IdxT.Valid t) (e : Ext) (vals : List Nat) (he : ExtIs t e vals)
+    (hf : Fits t vals) :
+    mdspanSize t e = .ok ((prod vals : Nat) : Int) ∧ mdspanEmpty t e = .ok (decide (0 ∈ vals)) :=
+  ⟨mdspanSize_eq t hv e vals he hf, mdspanEmpty_eq t hv e vals he hf⟩
+
+/-- `mdspan::operator[](span)` / `operator[](array)` read every index inside the argument and address the same element as
+    `operator()`: `buffer[closed-form offset]` -/
+theorem mdspan_subscript_eq {α : Type} (l : Lay) (t : IdxT) (hv : IdxT.Valid t) (e : Ext) (vals : List Nat)
+    (he : ExtIs t e vals) (hf : Fits t vals) (buf : List α) (hb : prod vals ≤ buf.length) (idx : List Nat)
+    (hr : InRange vals idx) :
+    ∃ h : offSpec l vals idx < buf.length, mdspanAtSpan l t e buf (idx.map Int.ofNat) = .ok buf[offSpec l vals idx] := by
+  rw [mdspanAtSpan_eq l t e vals he buf _ (by simp [inRange_length _ _ hr])]
+  exact mdspanAt_eq l t hv e vals he hf buf hb idx hr
+
+/-- `mdarray::container_size()` is `required_span_size()` = Π extents and the view returned by `mdarray::to_mdspan()`
+    addresses the container element at the closed-form offset -/
+theorem mdarray_to_mdspan_eq (l : Lay) (t : IdxT) (hv : IdxT.Valid t) (e : Ext) (vals : List Nat)
+    (he : ExtIs t e vals) (hf : Fits t vals) (idx : List Nat) (hr : InRange vals idx) :
+    mdarrayContainerSize l t e = .ok ((prod vals : Nat) : Int)
+      ∧ mdarrayToMdspanAt l t e (idx.map Int.ofNat) = .ok (offSpec l vals idx) :=
+  ⟨mdarrayContainerSize_eq l t hv e vals he hf, mdarrayToMdspanAt_eq l t hv e vals he hf idx hr⟩
+
 /-! ## extents constructors -/
 
 /-- every constructor of `extents` (rank_dynamic() values or rank() values; the pack, array and span forms reach the
@@ -152,6 +352,16 @@ theorem ctor_mapping_closed_form (l : Lay) (t : IdxT) (hv : IdxT.Valid t) (pat :
   exact ⟨e, h1, mapIdx_eq l t hv e vals h2 hf idx hr, reqSpan_eq l t hv e vals h2 hf, offSpec_lt l vals idx hr⟩
 example : Consistent [some 2, none, some 4] [2, 3, 4] ∧ Fits ⟨8, true⟩ [2, 3, 4] ∧ InRange [2, 3, 4] [1, 2, 3] := by decide
 
+/-- `submdspan_extents(ext, slices...)` with `full_extent` / index slice specifiers (`keep`: `true` = `full_extent`) never
+    leaves an array and yields an extents object that reports exactly the extents of the kept dimensions, in order, with
+    their static extents (after the fix of the reversed static extents) -/
+theorem submdspan_extents_eq (t : IdxT) (hv : IdxT.Valid t) (e : Ext) (vals : List Nat) (he : ExtIs t e vals)
+    (hc : Consistent e.pat vals) (hm : ∀ x ∈ vals, x ≤ t.maxV) (keep : List Bool) (hk : keep.length = vals.length) :
+    ∃ r, submdspanExtents t e keep = .ok r ∧ ExtIs t r (keepOf keep vals) ∧ r.pat = keepOf keep e.pat
+      ∧ Consistent r.pat (keepOf keep vals) := submdspanExtents_eq t hv e vals he hc hm keep hk
+example : Consistent [some 2, none, some 4] [2, 3, 4] ∧ keepOf [true, false, true] [2, 3, 4] = [2, 4]
+    ∧ keepOf [true, false, true] [some 2, none, some 4] = [some 2, some 4] := by decide
+
 /-! ## layout_transpose -/
 
 /-- `layout_transpose<L>::mapping::operator()(i, j)` (= nested mapping at `(j, i)`, converted to `size_type`) never
@@ -169,6 +379,32 @@ theorem transpose_stride_eq (t : IdxT) (hv : IdxT.Valid t) (m : TMap) (e0 e1 : N
     m.stride t r = .ok ((strideSpec (flipLay m.lay) [e0, e1] r : Nat) : Int) :=
   tmap_stride_eq t hv m e0 e1 he hf r hr
 example : Fits ⟨16, true⟩ [4, 3] := by decide
+
+/-- `linalg::detail::transpose_extents(e)` (four `if constexpr` branches) never fails and yields an extents object of the
+    transposed static/dynamic pattern that reports the two extents swapped -/
+theorem transpose_extents_eq (t : IdxT) (hv : IdxT.Valid t) (e : Ext) (a b : Nat) (he : ExtIs t e [a, b])
+    (hc : Consistent e.pat [a, b]) (hm : a ≤ t.maxV ∧ b ≤ t.maxV) :
+    ∃ r, transposeExt t e = .ok r ∧ ExtIs t r [b, a] ∧ Consistent r.pat [b, a] ∧ transposePat e.pat = .ok r.pat :=
+  transposeExt_extIs t hv e a b he hc hm
+example : Consistent [some 2, none] [2, 3] ∧ Consistent [none, some 2] [3, 2] := by decide
+
+/-- the constructor of `layout_transpose<L>::mapping` never fails; `extents()` reports the extents of the nested mapping
+    swapped and `required_span_size()` is the size of the index space -/
+theorem transpose_mapping_extents_eq (t : IdxT) (hv : IdxT.Valid t) (l : Lay) (nested : Ext) (e0 e1 : Nat)
+    (he : ExtIs t nested [e1, e0]) (hc : Consistent nested.pat [e1, e0]) (hf : Fits t [e1, e0]) :
+    ∃ m, TMap.make t l nested = .ok m ∧ m.lay = l ∧ m.nested = nested ∧ ExtIs t m.extents [e0, e1]
+      ∧ Consistent m.extents.pat [e0, e1] ∧ m.reqSpan t = .ok ((e0 * e1 : Nat) : Int) :=
+  tmap_make_eq t hv l nested e0 e1 he hc hf
+example : Consistent [none, some 2] [3, 2] ∧ Fits ⟨8, true⟩ [3, 2] := by decide
+
+/-- `mdspan::operator()(i, j)` over a `layout_transpose` mapping reads exactly the buffer element at the closed-form
+    offset of the other contiguous layout over the extents of the view, inside any buffer of `e0 * e1` elements -/
+theorem mdspan_access_transpose_eq {α : Type} (t : IdxT) (hv : IdxT.Valid t) (m : TMap) (e0 e1 : Nat)
+    (he : ExtIs t m.nested [e1, e0]) (hf : Fits t [e1, e0]) (buf : List α) (hb : e0 * e1 ≤ buf.length) (i j : Nat)
+    (hi : i < e0) (hj : j < e1) :
+    ∃ h : offSpec (flipLay m.lay) [e0, e1] [i, j] < buf.length,
+      mdspanAtT t m buf (i : Int) (j : Int) = .ok buf[offSpec (flipLay m.lay) [e0, e1] [i, j]] :=
+  mdspanAtT_eq t hv m e0 e1 he hf buf hb i j hi hj
 
 /-! ## span::first / last / subspan (`SpanWF`: inside the base range, static extent = size) -/
 
